@@ -68,10 +68,16 @@ def sizedLoop (abort : Bool) (t : Ty) (path : Path) (cid : Nat) : Nat ‚Üí Nat ‚Ü
         else
           (assertDoneSC abort c { s with scs := removeSC cid s.scs }).bind fun _ s => .ok (.list acc, s)
 
+def sizedFuel (cid : Nat) (scs : List SC) : Nat :=
+  match findSC cid scs with
+  | some c => (c.max.getD 0) - c.already + 2
+  | none => 2
+
 /-- `process_byte_sized_array`; also returns the constraint as it was at `assert_done` time -/
 def decodeSized (abort : Bool) (t : Ty) (path : Path) (cid : Nat) (s : St) : R Val :=
   let s := emitM ‚ü®path, .listOf t.name, none, "", 0‚ü© s
-  sizedLoop abort t path cid (s.inp.length + 2) 0 [] s
+  -- fuel: every completed element is charged to the region, so the region's remaining size bounds the iterations
+  sizedLoop abort t path cid (sizedFuel cid s.scs) 0 [] s
 
 def objField (v : Val) (f : String) : Option Val :=
   match v with
